@@ -66,6 +66,9 @@ def script_for(ctx, cache, key, data, dest, target, mode, owner=None):
         R("copy_unchecked", key=key, to=os.path.join(dest, "report.bin")),
         R("copy_hash", sri=sri, to=os.path.join(dest, "archive.tar.gz")),
         R("hard_link", key=key, to=os.path.join(dest, "hl")),
+        # the destination is an existing DIRECTORY: whatever the call makes of that, the key must not become a file name
+        R("copy", key=key, to=os.path.join(os.path.dirname(dest), "dirdest")),
+        R("copy_unchecked", key=key, to=os.path.join(os.path.dirname(dest), "dirdest")),
         R("writer", key=key, opts={"size": len(data) + 1, "metadata": {"m": 1}}, chunks=[ctx.data(data), ctx.data(b"!")]),
         R("writer", key=key, opts={}, chunks=[ctx.data(data)], final="drop"),
         R("write_hash", data=ctx.data(data + b"#")),
@@ -180,6 +183,7 @@ def run(ctx):
             for nm in ("copy.tmp", "report.tmp", "archive.tar.tmp", "archive.tmp", "copy.bak", "copy~", ".copy.swp", "hl.tmp"):
                 open(os.path.join(dest, nm), "wb").write(b"neighbour " + nm.encode())
                 neighbours[nm] = b"neighbour " + nm.encode()
+            os.makedirs(os.path.join(base, "dirdest"))
             owner = os.path.join(base, "owner")
             for sub in ("old", "new"):
                 os.makedirs(os.path.join(owner, sub))
@@ -343,6 +347,11 @@ def run(ctx):
                 ctx.violation(f"script|{mode}|linked-owner-files-changed",
                               f"files of a linked file's owner (outside the cache) were created, changed or removed: {ch[:4]}",
                               dict(det_base, steps=[[mode, q] for q in script[-12:]]))
+            dd = os.path.join(base, "dirdest")
+            if not os.path.isdir(dd) or os.listdir(dd):
+                ctx.violation(f"copy|{mode}|directory-destination-filled",
+                              f"copy by key onto an existing directory created {sorted(os.listdir(dd))[:3] if os.path.isdir(dd) else 'a non-directory'} "
+                              f"there (a file named after the key)", dict(det_base, steps=[[mode, q] for q in script if q.get('to', '').endswith('dirdest')]))
             ctx.count("owner_directory_censuses")
             ctx.rm(base)
     # (1b) a cache that holds nothing but index entries, inside otherwise empty parent directories: clean-up code
